@@ -3,7 +3,7 @@ from __future__ import annotations
 
 from ..env import Env, compile_fn
 from ..kernel import shard_map
-from ..progs import all_target_programs, expr_programs, skeleton_sources, source_shapes
+from ..progs import all_target_programs, chain_sources, expr_programs, skeleton_sources, source_shapes
 from ..runner import Acc
 from ..srcpipe import compare_functions, roundtrip
 from ..sweep import rotate
@@ -17,8 +17,10 @@ def programs(tier: str):
         out += list(skeleton_sources(2, "marked"))
         out += list(skeleton_sources(2, "bare"))
         out += list(expr_programs(1, 3))
-        out += [p for p in expr_programs(2, 3)]
+        out += list(expr_programs(2, 3))
+        out += list(chain_sources(3, "marked"))
     else:
+        out += list(chain_sources(3, "marked")) + list(chain_sources(3, "bare")) + list(chain_sources(4, "marked"))
         out += list(skeleton_sources(3, "marked", loop_else_upto=2))
         out += list(skeleton_sources(3, "bare", loop_else_upto=2))
         out += list(expr_programs(2, 4))
